@@ -19,6 +19,7 @@ type CheckDef struct {
 	LevelNote      string
 	Technique      string
 	Hidden         bool
+	CFG            []CFGCheck
 	Explanation    string
 	Bounds         map[string]string // tier -> bounds text
 	Outside        []string
@@ -208,6 +209,26 @@ func init() {
 		Bounds: map[string]string{"quick": "arbitrary ClientHello: 49-51 symbolic bytes (type/version steered); well-formed hello: names 1-3 bytes over {a,B,-,1}, session id 0/32, 3 extension orders, 1 suite; chunked: one hello shape, cut points {5,6,44,len-1,len} x2; passthrough: 6 symbolic bytes (first byte TLS / G / P / 0), tail in time or late; HTTP: 4 methods x 3 Host positions x 4 key cases x 3 values; QUIC frames: 3 cut points, 6 orders, resend, 1-2 datagrams; QUIC arbitrary: frame A 41 symbolic bytes at offset 0, frame B 4/8 bytes at offset 0/39/41", "thorough": "names <=4, session id 0/1/32, 1-2 suites, passthrough 6/9 free bytes, 6 QUIC cut points, QUIC arbitrary offsets A{0,1,38} x B{0,39,41,42,45,63}"},
 		Outside: []string{"QUIC header protection / AEAD decryption (crypto not encoded)", "hellos longer than the bounds, more than 3 extensions", "the async read path used only for readers without deadlines", "UDP datagram replay order in control/udp.go", "HTTP heads split over reads (the statement only claims one read)"},
 		Assumptions: []string{"model socket c06Conn: chunks arrive as given; a read beyond them returns a net.Error with Timeout()=true; SetReadDeadline always succeeds", "time.Now abstracted to an arbitrary instant"},
+		QuickBudget: 10 * time.Minute, ThoroughBudget: 60 * time.Minute,
+	}
+	checks["C20"] = &CheckDef{
+		Pkgs: []string{"./cmd", "./component/outbound/dialer"},
+		Harness: []string{"cmd:Verif_C20_protocol", "component/outbound/dialer:Verif_C20_suppression", "component/outbound/dialer:Verif_C20_suppression_threads"},
+		CFG: []CFGCheck{
+			{Name: "every way round the reload worker's loop either releases the pending request or hands it off, exactly once", Pkg: "cmd", Contains: ".coalesceReloadRequest", RangeOver: "reloadRequest",
+				Release: []string{"cmd.clearReloadPending", ".finishReloadFailure", ".finishReloadSuccess", ".beginHandoff"}},
+			{Name: "every way the main loop completes a handed-off reload releases the pending request exactly once", Pkg: "cmd", Contains: ".pendingDNSHandoffActive", StartIfLoadField: "reloading",
+				Release: []string{"cmd.clearReloadPending", ".finishReloadFailure", ".finishReloadSuccess"}},
+		},
+		MaxIter: 200,
+		Level:   "other",
+		LevelText: "Three parts. (1) The reload manager's real entry points (tryQueueReloadRequest, coalesceReloadRequest, clearReloadPending, releaseReloadPendingAfterRetirement, finishReloadFailure, finishReloadSuccess, takePendingRetirementDone, restore/clearRejectedReloadProgress) run as goroutines under the engine's schedule exploration: a signal goroutine sending three reload/suspend requests, the worker leaving through any of its four kinds of exit (early failure, late failure, success, success with a pending retirement), the retirement goroutine and the release goroutine; every interleaving at blocking operations plus up to one preemption at any atomic / channel / mutex operation; the schedule and the exits are symbolic inputs enumerated by the solver. Obligations: a request is accepted only while nothing is in progress or retiring; a refused request is reported busy and leaves queue and muting untouched; once settled the muting is lifted, the flags are clear and a new request is accepted and processed. (2) The muting counter itself (Begin/EndReloadProxyFailureSuppression, proxyFailureSuppressedForReload): arbitrary begin/end sequences and two concurrent ends under <=2 preemptions. (3) Two solver queries over the control-flow graph of the real (*Runner).Run: every walk through one iteration of the reload worker's loop, and every walk by which the main loop completes a handed-off reload, calls exactly one of the release / hand-off functions (conditions abstracted to free choices; unsat = no walk of up to 2x|blocks| steps with a different count).",
+		LevelNote: "Trusted: go/ssa, executor and its cooperative thread model (preemption only at synchronisation operations: data-race-free code assumed), z3. The worker in part (1) is a skeleton written in the harness that calls the real manager functions at each exit; part (3) ties that skeleton to the real loop. Control-plane construction, listeners, retirement draining and signal delivery are not executed.",
+		Technique: techniqueText,
+		Explanation: "Bounded schedule exploration of the reload manager with symbolic schedules, plus control-flow-graph path queries over (*Runner).Run.",
+		Bounds: map[string]string{"quick": "3 signals + 1 follow-up request, 4 worker exits per request, <=1 preemption (plus all orders at blocking points); counter: 4 begin/end operations, 2 concurrent ends with <=2 preemptions; CFG walks of <= 2x|blocks| steps (132 and 80)", "thorough": "<=2 preemptions; 6 begin/end operations"},
+		Outside: []string{"the body of each reload stage (config load, control-plane construction, listener hand-over, retirement drain)", "OS signal delivery and coalescing in the runtime", "more than three signals in flight", "data races on non-atomic variables"},
+		Assumptions: []string{"goroutines switch only at synchronisation operations (channel, mutex, atomic, sync.Map, timers)", "progress file replaced by a variable; suppression hooks in package cmd replaced by counters (the real counter is checked in part 2)", "CFG queries: branch conditions are free, so an infeasible walk could be reported (none is on the current tree)"},
 		QuickBudget: 10 * time.Minute, ThoroughBudget: 60 * time.Minute,
 	}
 	checks["ZZ"] = &CheckDef{
